@@ -93,3 +93,8 @@ Definition corr_rtf_strip (is_ws : N -> bool) (c : str * str) : bool :=
   str_eqb (rtf_strip_simple is_ws (fst c)) (snd c).
 Definition corr_rtf_cells (is_ws is_word : N -> bool) (c : str * list str) : bool :=
   list_eqb str_eqb (rtf_row_cells is_ws is_word (fst c)) (snd c).
+
+(* RTF render variants: (tight, separator after \row, grid, text, result) *)
+Definition corr_rtf_gen (is_ws is_word : N -> bool) (c : bool * str * list (list str) * str * list (list (list str))) : bool :=
+  let '(tight, sep, g, text, r) := c in
+  str_eqb text (rtf_r_doc_gen tight sep g) && tables_eqb (rtf_tables is_ws is_word text) r.
